@@ -304,6 +304,11 @@ func (r *Raft) onSnapshotTaken(t snapTaken) {
 			// notify repls with new logView
 			r.ldr.removeLTE = canCompact
 			r.ldr.notifyFlr(false)
+		} else if r.state == Leader && r.ldr.removeLTE < r.log.PrevIndex() {
+			// log views are created from removeLTE: it must not stay
+			// below what we just discarded, otherwise ViewAt returns nil
+			r.ldr.removeLTE = r.log.PrevIndex()
+			r.ldr.notifyFlr(false)
 		}
 	}
 	t.req.reply(t.meta.index)
